@@ -126,9 +126,24 @@ def sc_purity(d, name, sizes):
         idx, ut = qs.query(ch.copy(), clf, return_utilities=True)
         return [int(i) for i in idx], ut
 
+    class _UpdateRejected(Exception):
+        pass
+
     def update(qs, ch, idx):
-        qs.update(ch.copy(), d.arr(idx, dtype=int))
-    res = scenario(Env, lambda: _make(d, name, B, seed), query, update, chunks)
+        try:
+            qs.update(ch.copy(), d.arr(idx, dtype=int))
+        except (core.Unencodable, core.PathAbort):
+            raise
+        except (IndexError, ValueError) as e:
+            # update refusing the result of query is the subject of C10 (open known finding for the cognitive
+            # strategies); the purity scenario cannot continue on such a history
+            raise _UpdateRejected(repr(e))
+    try:
+        res = scenario(Env, lambda: _make(d, name, B, seed), query, update, chunks)
+    except _UpdateRejected as e:
+        if d.sym:
+            raise core.PathAbort("update rejected the result of query (C10): " + str(e))
+        return
     d.witness(any(len(r[0]) for r in res), "some_granted")
 
 
@@ -140,7 +155,7 @@ def harnesses_c10():
 
 def harnesses_c04():
     return [dual_harness("density_strategy_bound", sc_density_bound,
-                         lambda tier: [dict(sizes=s) for s in ([[1, 1], [2]] if tier == "quick" else [[1, 1], [2], [3], [1, 2], [2, 2]])],
+                         lambda tier: [dict(sizes=s) for s in ([[1, 1], [2], [3]] if tier == "quick" else [[1, 1], [2], [3], [1, 2], [2, 2]])],
                          UNITS[:3] + UNITS[6:], required_witnesses=("some_granted",), product_abstraction=True)]
 
 
